@@ -85,6 +85,7 @@ COMMENT_TEXTS = {
     "quote-end": 'The value is "unknown"',
     "backslash-end": "Ends with a backslash \\",
     "markup": "Uses <b>markup</b> & entities like &amp; and 100% {braces}.",
+    "non-ascii": "Währung in € - ünïcödé naïve café",
     "multiline": "First line.\nSecond line with a \\ and a \" quote.\n\nFourth line.",
 }
 
